@@ -38,6 +38,7 @@ def bmParseStep (ret : BmRepr) : Hint → Option BmRepr
   | .c => (bmBaseStep ret.repr .c).map (fun b => { ret with repr := b })
   | .transparent => (bmBaseStep ret.repr .transparent).map (fun b => { ret with repr := b })
   | .int t => (bmBaseStep ret.repr (.int t)).map (fun b => { ret with repr := b })
+  | .rust => none                                        -- "unrecognized representation hint"
 
 def bmParseFrom (ret : BmRepr) : List Hint → Option BmRepr
   | [] => some ret
